@@ -1,45 +1,109 @@
+// scratch: lockstep overlap of two handshakes between the same routers (exploration)
 package main
 
 import (
+	"bytes"
 	"fmt"
+	"os"
+	"sync"
 	"time"
 
 	"github.com/mycoria/mycoria/config"
+	"github.com/mycoria/mycoria/frame"
+
+	"verifharness/internal/linkworld"
+	"verifharness/internal/mesh"
 	"verifharness/internal/world"
 )
 
+func mk(w *world.World, name string, idx int) *world.Node {
+	ids := mesh.Identities(3)
+	return w.NewNode(name, world.NodeOpts{ID: ids[idx], Cfg: config.Store{Router: config.Router{Universe: "u", UniverseSecret: "s"}}})
+}
+
 func main() {
+	cross := len(os.Args) > 1 && os.Args[1] == "cross"
 	world.InstallLogCapture()
-	t0 := time.Now()
 	w := world.NewWorld()
-	var ns []*world.Node
-	for i := 0; i < 5; i++ {
-		ns = append(ns, w.NewNode(fmt.Sprintf("n%d", i), world.NodeOpts{Cfg: config.Store{}}))
-	}
-	fmt.Println("nodes built in", time.Since(t0))
-	for i := 0; i+1 < len(ns); i++ {
-		if _, _, err := w.Connect(ns[i], ns[i+1], 10, 11, 5); err != nil {
-			panic(err)
+	d, l := mk(w, "D", 0), mk(w, "L", 1)
+	dd, dl := linkworld.StartDrain(d), linkworld.StartDrain(l)
+	defer dd.Stop()
+	defer dl.Stop()
+	var mu sync.Mutex
+	arr := map[string]int{}
+	gate := func(conn int) func(p *linkworld.Proxy, m linkworld.Msg) [][]byte {
+		return func(p *linkworld.Proxy, m linkworld.Msg) [][]byte {
+			if m.Idx > 3 {
+				return nil // the handshake is over
+			}
+			// in the cross case connection 2 is dialled by L: its "A" direction is L->D
+			dir := m.Dir
+			if cross && conn == 2 {
+				if dir == "A" {
+					dir = "B"
+				} else {
+					dir = "A"
+				}
+			}
+			k := fmt.Sprintf("%s%d", dir, m.Idx)
+			mu.Lock()
+			arr[k]++
+			mu.Unlock()
+			dl := time.Now().Add(2 * time.Second)
+			for time.Now().Before(dl) {
+				mu.Lock()
+				n := arr[k]
+				mu.Unlock()
+				if n >= 2 {
+					break
+				}
+				time.Sleep(200 * time.Microsecond)
+			}
+			if conn == 2 {
+				time.Sleep(4 * time.Millisecond)
+			}
+			return nil
 		}
 	}
-	for _, n := range ns {
-		for _, l := range n.Peer.GetLinks() {
-			if err := n.Rt.AnnouncePing.Send(l.Peer()); err != nil {
-				fmt.Println("announce err", n.Name, err)
+	pd1 := linkworld.Start(d, l)
+	pd1.Proxy.SetHook(gate(1))
+	time.Sleep(8 * time.Millisecond)
+	var pd2 *linkworld.Pending
+	if cross {
+		pd2 = linkworld.Start(l, d)
+	} else {
+		pd2 = linkworld.Start(d, l)
+	}
+	pd2.Proxy.SetHook(gate(2))
+	get := func(pd *linkworld.Pending) (a, b linkworld.SetupRet) {
+		for i := 0; i < 2; i++ {
+			select {
+			case a = <-pd.DoneA:
+			case b = <-pd.DoneB:
+			case <-time.After(4 * time.Second):
 			}
 		}
+		return
 	}
-	d := w.RunUntilQuiet(nil, 100000)
-	fmt.Println("delivered", d, "panics", w.Panics)
-	for _, n := range ns {
-		fmt.Println(n.Name, "table:")
-		for _, e := range n.RoutingTable().VerifEntries() {
-			fmt.Printf("   dst=%s nh=%s hops=%d src=%v\n", w.NodeByIP(e.DstIP).Name, w.NodeByIP(e.NextHop).Name, e.Path.TotalHops, e.Source)
+	a1, b1 := get(pd1)
+	a2, b2 := get(pd2)
+	fmt.Printf("conn1: dialler %v / listener %v\nconn2: dialler %v / listener %v\n", a1.Err, b1.Err, a2.Err, b2.Err)
+	time.Sleep(80 * time.Millisecond)
+	ld, ll := d.Peer.GetLink(l.ID.IP), l.Peer.GetLink(d.ID.IP)
+	fmt.Printf("registered at D: %v (closing %v), at L: %v (closing %v)\n", ld != nil, ld != nil && ld.IsClosing(), ll != nil, ll != nil && ll.IsClosing())
+	if ld != nil && ll != nil {
+		dd.Take()
+		dl.Take()
+		for _, t := range []struct {
+			from, to *world.Node
+			dr       *linkworld.Drain
+		}{{d, l, dl}, {l, d, dd}} {
+			want, err := linkworld.SendFrame(t.from, t.to, t.from.Peer.GetLink(t.to.ID.IP), frame.NetworkTraffic, []byte("payload payload payload payload"))
+			t.dr.WaitN(1, 300*time.Millisecond)
+			got := t.dr.Take()
+			fmt.Printf("traffic %s->%s: err %v delivered %v\n", t.from.Name, t.to.Name, err, len(got) == 1 && bytes.Equal(got[0], want))
 		}
-		for _, h := range n.Handled {
-			if e := h.HandlerErr(); e != "" {
-				fmt.Println("   handler err:", e)
-			}
-		}
+		time.Sleep(50 * time.Millisecond)
+		fmt.Printf("after traffic: D link closing %v, L link closing %v\n", ld.IsClosing(), ll.IsClosing())
 	}
 }
